@@ -835,8 +835,19 @@ class Workspace(_ChannelSummaryMixin, dict):
                                 for x in parset_spec['paramset'].suggested_bounds
                             ],
                             "inits": parset_spec['paramset'].suggested_init,
-                            "fixed": parset_spec['paramset'].suggested_fixed_as_bool,
                             "name": parset_name,
+                            # per-component fixed flags can only come from the modifier data
+                            # (a measurement can only give one boolean) and are rederived
+                            # from the channels, so only a uniform flag is written
+                            **(
+                                {
+                                    "fixed": parset_spec[
+                                        'paramset'
+                                    ].suggested_fixed_as_bool
+                                }
+                                if len(set(parset_spec['paramset'].suggested_fixed)) == 1
+                                else {}
+                            ),
                             # constraint settings (auxiliary data, widths, rate factors)
                             # are part of the model as well
                             **{
